@@ -74,9 +74,12 @@ class Reg:
     def __init__(self):
         self.ids = {}
         self.keep = []
+        self.frozen = False   # True: objects not seen so far are "fresh" (token 0)
 
     def tok(self, obj):
         k = id(obj)
+        if k not in self.ids and self.frozen:
+            return 0
         if k not in self.ids:
             self.ids[k] = len(self.ids) + 1
             self.keep.append(obj)
@@ -1360,8 +1363,9 @@ def run_derived(ctx, spaces, elems):
                 if probs:
                     viol(ctx, 'derived-wrong {} op=astype'.format(cls(s)),
                          '{}.astype({}): {}'.format(sn, dt, '; '.join(probs)), rep)
-                if is_p and r is not s and not weighting_equal_selection(
-                        r.weighting, s.weighting, slice(None)):
+                # as for tensor spaces, the weighting is kept for floating-point targets only
+                if is_p and r is not s and np.dtype(dt).kind in 'fc' and \
+                        not weighting_equal_selection(r.weighting, s.weighting, slice(None)):
                     viol(ctx, 'derived-weighting-dropped ProductSpace op=astype',
                          '{}.astype({}) has weighting {} instead of {}'.format(
                              sn, dt, r.weighting, s.weighting), rep)
@@ -1474,8 +1478,12 @@ def run_derived(ctx, spaces, elems):
                     if probs:
                         viol(ctx, 'derived-wrong ProductSpace op=getitem index=' + kind,
                              '{}[{}]: {}'.format(sn, idx, '; '.join(probs)), rep)
-                    if not weighting_equal_selection(r.weighting, s.weighting, idx):
-                        viol(ctx, 'derived-weighting-dropped ProductSpace op=getitem',
+                    wkind = ('const' if hasattr(s.weighting, 'const') else
+                             'array' if hasattr(s.weighting, 'array') else 'custom')
+                    if wkind != 'custom' and not weighting_equal_selection(
+                            r.weighting, s.weighting, idx):
+                        viol(ctx, 'derived-weighting-dropped ProductSpace op=getitem '
+                             'weighting=' + wkind,
                              '{}[{}] has weighting {} instead of the selection of {}'.format(
                                  sn, idx, r.weighting, s.weighting), rep)
                 w = pidx_wire(idx, n)
@@ -1577,7 +1585,7 @@ def run_derived(ctx, spaces, elems):
                         ok = y is x.parts[idx]
                     elif isinstance(idx, tuple):
                         ref = x.asarray()[idx]
-                        got = np.asarray(y)
+                        got = np.asarray(y.asarray() if hasattr(y, 'asarray') else y)
                         ok = np.array_equal(got.reshape(ref.shape), ref)
                     else:
                         sel = x.parts[idx] if isinstance(idx, slice) else [x.parts[i] for i in idx]
@@ -1611,6 +1619,12 @@ def run_derived(ctx, spaces, elems):
             ref = x.asarray()[idx]
             reg = Reg()
             arrw = isinstance(w, ArrayWeighting)
+            ts0 = xs if type(xs) is NumpyTensorSpace else xs.tspace
+            try:
+                ts_desc = describe_space(ts0, reg)
+            except ValueError:
+                ts_desc = None
+            reg.frozen = True
             ctx.case(('elem-index', cls(xs), type(idx).__name__, np.isscalar(ref) or ref.ndim == 0,
                       arrw))
             try:
@@ -1635,6 +1649,10 @@ def run_derived(ctx, spaces, elems):
                         probs.append('dtype/exponent of the result space changed')
                     if not arrw and not (y.space.weighting == ts.weighting):
                         probs.append('weighting of the result space changed')
+                    if arrw and not (isinstance(y.space.weighting, ArrayWeighting) and
+                                     np.array_equal(np.asarray(y.space.weighting.array),
+                                                    np.asarray(w.array)[idx])):
+                        probs.append('weights of the result space are not weights[idx]')
                     if y not in y.space:
                         probs.append('result not in its own space')
                 if probs:
@@ -1642,12 +1660,9 @@ def run_derived(ctx, spaces, elems):
                         type(x).__name__, 'array' if arrw else 'other'),
                         '{}: x[{}]: {}'.format(xn, idx, '; '.join(probs)), rep)
                 impl = ('ok ' + space_desc(y.space, reg)) if hasattr(y, 'space') else None
-            if impl is not None and np.ndim(ref) > 0 and xs.dtype.kind in 'iufc':
-                try:
-                    send(rep, 'derive op=indexspace S={} shape={}'.format(
-                        describe_space(ts, reg), L(str(k) for k in np.shape(ref))), impl)
-                except ValueError:
-                    pass
+            if impl is not None and np.ndim(ref) > 0 and xs.dtype.kind in 'iufc' and ts_desc:
+                send(rep, 'derive op=indexspace S={} shape={}'.format(
+                    ts_desc, L(str(k) for k in np.shape(ref))), impl)
     outs = core.run_driver('C20', lines)
     for (rep, impl), ans in zip(meta, outs):
         if ans != impl:
